@@ -88,7 +88,7 @@ with open(os.path.join(HERE, "seeded", "MATRIX.md"), "w") as f:
     f.write(f"\n{n} changes; {t} caught by the target property's check; {a} caught by at least one check; "
             f"missed by every quick check: {[r['id'] for r in rows if not r['caught_by_quick_tier']]}\n")
     f.write("\n## Per round\n\n| round | changes | first pass: target check | first pass: some check | now: target check | now: some check |\n|---|---|---|---|---|---|\n")
-    for tag, name in (("-m", "1"), ("-r2m", "2"), ("-r3m", "3"), ("-r4m", "4"), ("-r5m", "5"), ("-r6m", "6"), ("-r7m", "7")):
+    for tag, name in (("-m", "1"), ("-r2m", "2"), ("-r3m", "3"), ("-r4m", "4"), ("-r5m", "5"), ("-r6m", "6"), ("-r7m", "7"), ("-r8m", "8 (ten properties)")):
         rr = [r for r in rows if re.search(re.escape(tag) + r"\d$", r["id"]) and (tag != "-m" or re.search(r"^C\d+-m\d$", r["id"]))]
         if not rr:
             continue
